@@ -54,12 +54,13 @@ func WithGlobalTx(ctx context.Context, gc *GtxConfig, business CallbackWithCtx) 
 		ctx = InitSeataContext(ctx)
 	}
 
+	// the enclosing scope shares this context: put back what it held (its xid, role
+	// and name - or nothing, when it runs without a transaction) when this scope has
+	// ended, whatever this scope does with them, so that the enclosing scope completes
+	// its own second phase and only its own.
+	enclosing := *GetTx(ctx)
+	defer SetTx(ctx, &enclosing)
 	if IsGlobalTx(ctx) {
-		// the enclosing transaction shares this context: put its xid, role and
-		// name back when this scope has ended, whatever this scope does with them,
-		// so that the enclosing scope still completes its own second phase.
-		enclosing := *GetTx(ctx)
-		defer SetTx(ctx, &enclosing)
 		clearTxConf(ctx)
 	}
 
